@@ -174,6 +174,13 @@ def site_program(site, payloads):
         elif site == "relational":
             decl.append(f"logical, parameter :: {n} = {pl}")
             checks.append(("module/cm.html", f"variable-{n}", pl))
+        elif site == "binding-target":
+            # payload = name of the implementation; the heading must read `bnd => <name>` whether or not the target is displayed
+            vis = "public" if i % 2 else "private"
+            types += [f"type bt{i}", "integer :: q", "contains", f"procedure :: bnd{i} => {pl}", f"generic :: gen{i} => bnd{i}", f"end type bt{i}"]
+            decl.append(f"{vis} :: {pl}")
+            cont += [f"subroutine {pl}(self)", f"class(bt{i}) :: self", f"end subroutine {pl}"]
+            checks.append((f"type/bt{i}.html", f"boundprocedure-bnd{i}", f"bnd{i} => {pl}"))
     src = ["module cm", "implicit none"] + types + decl + (["contains"] + cont if cont else []) + ["end module cm"]
     return {"src/cm.f90": "\n".join(src) + "\n"}, checks
 
@@ -256,10 +263,12 @@ def work(job):
     st = Stats()
     # neutral literal first: its row structure is the reference structure for this site
     neutral = "x" if site not in ("relational",) else "1 .eqv. 2"
+    if site == "binding-target":
+        neutral = None
     if site == "kind-expr-fn":
         neutral = "4"
     sh = check_batch(st, site if site != "kind-expr-fn" else "kind-fn", [neutral], None) if False else None
-    shapes = check_batch(Stats(), site, [neutral], None)
+    shapes = check_batch(Stats(), site, [neutral], None) if neutral is not None else {}
     nshape = shapes.get(neutral)
     for i in range(0, len(payloads), BATCH):
         check_batch(st, site, payloads[i:i + BATCH], nshape)
@@ -306,6 +315,7 @@ def main(tier, replay_path=None):
         for i in range(0, len(pls), chunk):
             jobs.append((site, pls[i:i + chunk]))
     jobs.append(("relational", RELATIONAL))
+    jobs.append(("binding-target", [f"impl_{c}" for c in "abcdefgh"]))
     k = core.SEED % 5
     jobs = jobs[k:] + jobs[:k]
     total = Stats()
